@@ -359,7 +359,7 @@ def channel_inspect(ctx, c, key, cls, ref=None):
         if ref is not None:
             # wires left out of an explicit wires_to_track list: inspect must still give the wire's value
             # (Simulation, FastSimulation) or refuse with PyrtlError (CompiledSimulation), never anything else
-            for nm in ref:
+            for nm in sorted(ref):
                 if nm in tracked:
                     continue
                 try:
@@ -394,7 +394,7 @@ def channel_inspect(ctx, c, key, cls, ref=None):
 # ------------------------------------------------------------------ channel B
 def make_scenario(rng, c, trA, key, pool=None):
     n = c.ncyc
-    names = list(pool if pool is not None else trA)
+    names = sorted(pool if pool is not None else trA)   # sorted: the tracer's own order follows a set
     in_names = [w.name for w in c.d.inputs]
     widths = {w.name: len(w) for w in c.d.inputs}
     kinds = ['normal'] * 6 + ['nsteps', 'err2', 'err3', 'err4', 'err5', 'bad-input', 'nsteps0']
@@ -1193,7 +1193,12 @@ def run(ctx):
 
     exprs, meta, guard_pairs = [], [], []
     for i in range(ndesigns):
-        c = build(ctx, i)
+        try:
+            c = build(ctx, i)
+        except Exception as e:      # the generator, not PyRTL's observation channels: note it and go on
+            ctx.notes.append('design %d could not be generated: %r' % (i, e))
+            ctx.count('design_generation_failed', type(e).__name__)
+            continue
         coq_sim = i % 3
         ctx.count('cycles', c.ncyc)
         ctx.count('odd_names', len(c.odd))
